@@ -15,6 +15,9 @@ RULE = ('corpus; cooccurence: integer images of 2-3 dimensions with 1..64 grey l
         'moments vs the exact integer double sum; integral image vs the exact prefix sum for 10 dtypes. '
         'Non-trivial = image not constant; distinct = distinct protocol line.')
 ASSUMPTIONS = ['cooccurence/haralick: pixel values are non-negative integers (the kernel raises on negatives); array sizes < 2^31',
+               'haralick options: use_x_minus_y_variance / preserve_haralick_bug against the Lean Float formulas at 1e-9 and '
+               'all other entries bit-identical; return_mean / return_mean_ptp = mean / mean ++ ptp over directions at 1e-12; '
+               'the 14th feature (eigenvalues) is not modelled, only that it leaves the first 13 unchanged',
                'haralick: features whose textbook formula is 0/0 (correlation of a matrix with zero variance, information '
                'measure with zero marginal entropy) are not compared; an image without any counted pair raises (documented)',
                'haralick formulas are compared with the Lean Float functions at 1e-9 (log2/exp/sqrt involved); the '
@@ -187,7 +190,7 @@ def _eval_haralick(case):
     m = int(f.max()) + 1
     drv = core.drive([f"c19 kind=haralick shape={gen.enc_shape(f.shape)} data={gen.enc_arr(case['data'])} m={m} "
                       f"dist={dist} iz={iz}"])[0]
-    F = core.floats(drv['feats']).reshape(ndirs, 17)
+    F = core.floats(drv['feats']).reshape(ndirs, 19)
     for d in range(ndirs):
         vx, vy, hx, hy = F[d, 13:17]
         for k in range(13):
@@ -202,7 +205,50 @@ def _eval_haralick(case):
                 break
         if findings:
             break
+    if not findings:
+        findings.extend(_haralick_options(mf, f, H, F, iz, dist, ndirs, same))
     return dict(findings=findings, nontrivial=bool(f.min() != f.max()), sig=json.dumps(case, sort_keys=True), tags=tags)
+
+
+def _haralick_options(mf, f, H, F, iz, dist, ndirs, same):
+    """the documented options: `use_x_minus_y_variance` replaces f10 by VAR[|x-y|] (Lean varG of p_{x-y}),
+    `preserve_haralick_bug` centres f7 at the sum entropy f8 (Lean sumVarG ... f8) - every other entry unchanged bit for
+    bit; `return_mean` / `return_mean_ptp` are the mean / mean ++ (max - min) over the directions of the default result.
+    (`compute_14th_feature` needs an eigen-decomposition and is not modelled: only the first 13 columns are compared.)"""
+    out = []
+    with warnings.catch_warnings():
+        warnings.simplefilter('ignore')
+        kw = dict(ignore_zeros=bool(iz), distance=dist)
+        Hv = mf.haralick(f, use_x_minus_y_variance=True, **kw)
+        Hb = mf.haralick(f, preserve_haralick_bug=True, **kw)
+        Hm = mf.haralick(f, return_mean=True, **kw)
+        Hp = mf.haralick(f, return_mean_ptp=True, **kw)
+        try:
+            H14 = mf.haralick(f, compute_14th_feature=True, **kw)
+        except Exception:       # eigen-decomposition of a degenerate correlation matrix: outside the statement
+            H14 = None
+    for name, Ho, col, mcol in (('use_x_minus_y_variance', Hv, 9, 17), ('preserve_haralick_bug', Hb, 6, 18)):
+        if Ho.shape != H.shape:
+            out.append(dict(kind='property', key=f'haralick:option:{name}:shape', detail=dict(shape=list(Ho.shape))))
+            continue
+        rest = [k for k in range(13) if k != col]
+        if not same(Ho[:, rest], H[:, rest]):
+            out.append(dict(kind='property', key=f'haralick:option:{name}:other-features-changed', detail={}))
+        for d in range(ndirs):
+            a, b = float(Ho[d, col]), float(F[d, mcol])
+            if not (abs(a - b) <= 1e-9 * max(1.0, abs(b))):
+                out.append(dict(kind='property', key=f'haralick:option:{name}:formula', detail=dict(direction=d, got=a, textbook=b)))
+                break
+    mean = H.mean(axis=0)
+    ptp = H.max(axis=0) - H.min(axis=0)
+    close = lambda a, b: a.shape == b.shape and bool(np.all((np.abs(a - b) <= 1e-12 * np.maximum(1.0, np.abs(b))) | (np.isnan(a) & np.isnan(b))))
+    if not close(Hm, mean):
+        out.append(dict(kind='property', key='haralick:option:return_mean', detail=dict(got=Hm.tolist(), want=mean.tolist())))
+    if not close(Hp, np.concatenate((mean, ptp))):
+        out.append(dict(kind='property', key='haralick:option:return_mean_ptp', detail=dict(got=Hp.tolist())))
+    if H14 is not None and (H14.shape != (ndirs, 14) or not same(H14[:, :13], H)):
+        out.append(dict(kind='property', key='haralick:option:compute_14th_feature:first-13-changed', detail=dict(shape=list(H14.shape))))
+    return out
 
 
 # ---------------------------------------------------------------------------------------------- LBP
